@@ -113,27 +113,45 @@ class Prop:
     gen_engines = ["LogStream"]
     drivers = ["logstream"]
     technique = ("Lean 4 proofs about an executable model of LogStream/FixedBuffer/Logger/formatSI/formatIEC (exact "
-                 "rational model of the double arithmetic) + T1 extraction of tables, guards, formats, line pieces, "
+                 "rational model of the double arithmetic) + T1 extraction of tables, guards, formats, line pieces, the "
+                 "statement order of Logger::Impl::Impl, the tid-cache code of CurrentThread/Thread.cc, "
                  "macro gates and branch tables + differential run vs. the real classes + independent Python oracle")
     level_text = ("Kernel-checked theorems for all inputs: the digit loops print the canonical decimal / upper-case hex "
                   "text of every integer (incl. type minima) within the tested headroom; every insertion sequence stays "
-                  "inside the fixed buffer and loses only whole items and only for lack of space; the line layout, "
-                  "field widths, base name and the level gate of the LOG_* macros; the time field is the break-down of "
-                  "the logged instant in the configured zone unless the zone was changed inside the thread's cached "
-                  "second (F18, known finding, negation witness proved); formatSI / formatIEC stay within 5 / 6 "
-                  "characters for every n in [0, 2^63) on an exact model of int64->double rounding, the correctly "
-                  "rounded division and %.Nf. Tables, guards, formats, gates and branch tables are re-extracted from "
+                  "inside the fixed buffer and loses only whole items and only for lack of space; the base name and the "
+                  "level gate of the LOG_* macros; the thread-id field: for every state of the calling thread's tid cache "
+                  "(nothing cached - a thread that reaches the logger as its first muduo call - or its own id cached) and "
+                  "for every kind of thread (main, muduo::Thread, pthread_create'd, child of a fork() that inherited the "
+                  "parent's cached id) the emitted line has, right after the 17+8/9-character time stamp, exactly the "
+                  "'%5d ' rendering of that thread's gettid(), and the assert of helper class T holds (tid_field_true, "
+                  "proved from the extracted fact that Impl::Impl calls CurrentThread::tid() before it reads tidString(); "
+                  "the excluded branch - six NUL bytes and a failing assert - is proved as tid_field_without_call). "
+                  "The time field is the first 17 characters of the '%4d%02d%02d %02d:%02d:%02d' text of the logged second "
+                  "in the configured zone unless the zone was changed inside the thread's cached second (line_time_partial; "
+                  "F18, known finding, negation witness line_time_fails_witness); formatSI / formatIEC stay within 5 / 6 "
+                  "characters for every n in [0, 2^63) on an exact model of int64->double rounding, the correctly rounded "
+                  "division and %.Nf (formatSI_width, formatIEC_width). NOT proved in Lean (tested by the differential run "
+                  "and the oracle only): the calendar arithmetic behind the time text (C20) and the 'within rounding "
+                  "error' clause of formatSI / formatIEC. "
+                  "Tables, guards, formats, statement order, gates and branch tables are re-extracted from "
                   "/repo's AST on every run; the rest of the model is tied to the real classes by a differential run "
-                  "on boundary-dense inputs, and an independent oracle is evaluated on the implementation's output")
+                  "on boundary-dense inputs in a build with asserts and an NDEBUG build, and an independent oracle is "
+                  "evaluated on the implementation's output (thread id against gettid() read by the harness on the "
+                  "emitting thread; an abort of a non-FATAL statement is a violation)")
     level_note = ("Trusted: Lean kernel (axioms propext, Classical.choice, Quot.sound only), vlib/gen/logstream.py, the "
                   "hand-written parts of Model/LogStream.lean as far as the differential run exercises them, glibc "
-                  "snprintf/strerror_r. %.12g of doubles is snprintf by construction (its text is an input of the model; "
-                  "only the length bound is tested). Implementation-vs-snprintf sweeps over 16/32-bit integers are a "
-                  "test, labelled as such in the evidence.")
+                  "snprintf/strerror_r, the kernel's gettid/fork/pthread_atfork semantics (a new thread starts with the "
+                  "initialisers of its __thread variables; the child of fork() runs the registered child handler on a copy "
+                  "of the forking thread's variables). %.12g of doubles is snprintf by construction (its text is an input "
+                  "of the model; only the length bound is tested). Implementation-vs-snprintf sweeps over 16/32-bit "
+                  "integers are a test, labelled as such in the evidence.")
     rule = ("LogStream: insertion sequences over all operator<< overloads with boundary-dense values (type limits, every "
             "power of ten and two +-2, random) incl. sequences that run past the 4000-byte buffer and the 4000000-byte "
             "FixedBuffer; Logger: every constructor and LOG_* macro x level x configured level x source path x zone x "
-            "thread kind (main / new thread / forked child) under a scripted and the real clock; formatSI/formatIEC: "
+            "thread kind (main / muduo::Thread / forked child / pthread_create'd thread whose first muduo call is the log "
+            "statement / pthread_create'd thread after CurrentThread::tid()) under a scripted and the real clock; a "
+            "dedicated thread-kind section (every kind, constructors and macros) runs in a build with asserts AND an "
+            "NDEBUG build in both tiers; formatSI/formatIEC: "
             "every power of ten and two and every branch threshold +-N (N=3000 thorough, 64 quick; +-3000 around the F8 "
             "boundary in both tiers), type limits, random; a case is non-trivial when it produced output; distinct = "
             "distinct observation traces")
@@ -143,6 +161,10 @@ class Prop:
         "hand-written Model/LogStream.lean for everything else (digit loops, buffer, %d interpreter, time cache, exact "
         "double arithmetic), tied by the differential run (harness/logstream_drv.cc vs lean driver)",
         "glibc snprintf (%.12g, %.Nf correctly rounded), strerror_r, gettid; IEEE-754 binary64 round-to-nearest-even",
+        "thread-local storage / fork semantics: a new thread sees the static initialisers of t_cachedTid (0), t_tidString "
+        "(zero-filled), t_tidStringLength (6); fork() copies the forking thread's values and runs the pthread_atfork child "
+        "handler; the entry states of the four thread kinds in Model/LogStream.lean (entryState) are built from the "
+        "extracted start-up steps and tied by the differential run",
     ]
     assumptions = [
         "streamed integers / pointers are values of a type of at most 64 bits; snprintf(\"%.12g\") reports fewer than "
@@ -151,6 +173,8 @@ class Prop:
         "(a thread's very first line during second 0 would hit the zero-initialised cache)",
         "a fixed-offset TimeZone (or none) is configured; zone-file zones belong to C20",
         "log lines are produced on one thread at a time (the per-thread cache is thread-local)",
+        "gettid() returns a positive pid_t (0 < tid < 2^31); a thread's tid cache, when filled, was filled on that thread "
+        "(or was reset by the atfork handler): nobody writes CurrentThread::t_cachedTid by hand",
     ]
     partial_theorems = [
         {"theorem": "MuduoVerif.C17.line_time_partial",
@@ -743,7 +767,7 @@ class Prop:
         ctx.extra["flavours"] = flavours
         if replay:
             lines = self.corpus_lines(replay)
-            for fl in flavours:
+            for fl in (flavours if "ndebug" in flavours else flavours + ["ndebug"]):
                 self.run_lines(ctx, ctx.exe("logstream_drv", fl), lines, "replay:" + os.path.basename(replay))
             return
         thorough = (not ctx.quick()) or ctx.search_mode
